@@ -76,3 +76,31 @@ def names_and_calls_resolve(model, rep, scope, rule='resolves'):
     rep.count('call sites', total)
     rep.count('call sites resolved', resolved)
     return total, resolved
+
+
+def groupop_composition_order(model, rep, rule='composition-order'):
+    """GroupOp.__mul__: the operand whose rotation acts last (outer factor of np.dot(A.rot, B.rot)) must also be the
+    outer map of the permutation composition  tuple(A_list[i] for i in B_list)."""
+    from ..engines import pattern
+    rep.rule(rule, 'product of operations composes rotation, translation and atom permutation in the same order')
+    mod = model.mod('crystal')
+    fn = model.func('crystal', 'GroupOp.__mul__')
+    rots = pattern.find(fn, 'np.dot(_N_a.rot, _N_b.rot)', 'expr')
+    perms = pattern.find(fn, 'tuple((tuple((_N_l0[_N_i] for _N_i in _N_l1)) for _N_l0, _N_l1 in zip(_N_a.indexmap, _N_b.indexmap)))', 'expr')
+    perms_rev = pattern.find(fn, 'tuple((tuple((_N_l1[_N_i] for _N_i in _N_l0)) for _N_l0, _N_l1 in zip(_N_a.indexmap, _N_b.indexmap)))', 'expr')
+    if not rots or not (perms or perms_rev):
+        raise AnalysisError('GroupOp.__mul__: rotation product / permutation composition not recognised')
+    outer = rots[0]['_N_a']
+    ok = bool(perms) and perms[0]['_N_a'] == outer
+    if not ok and perms_rev:
+        ok = perms_rev[0]['_N_b'] == outer
+    rep.ob(rule, mod, (perms or perms_rev)[0]['_node'], 'GroupOp.__mul__: rotation %s.rot . %s.rot ; permutation %s'
+           % (outer, rots[0]['_N_b'], unparse((perms or perms_rev)[0]['_node'])[:90]), ok,
+           '' if ok else 'the atom permutation of the product is composed in the opposite order to its rotation: the recorded '
+                         'permutation of g*h is that of h*g (visible only when the permutations do not commute)', engine='pattern',
+           qual='GroupOp.__mul__')
+    trans = pattern.find(fn, 'np.dot(_N_a.rot, _N_b.trans) + _N_a.trans', 'expr') + pattern.find(fn, '_N_a.trans + np.dot(_N_a.rot, _N_b.trans)', 'expr')
+    okt = bool(trans) and trans[0]['_N_a'] == outer
+    rep.ob(rule, mod, fn, 'GroupOp.__mul__: translation = outer.rot . inner.trans + outer.trans', okt,
+           '' if okt else 'translation of the product is not that of applying the inner operation first', engine='pattern',
+           qual='GroupOp.__mul__')
